@@ -47,11 +47,11 @@ def cases(draw, exhaustive=False):
     if dead and (len(live) <= 1 or draw(st.booleans())):
       i = dead.pop(draw(st.integers(0, len(dead) - 1)))
       live.append(i)
-      ops.append(['add', i])
+      ops.append(['add', i, draw(st.integers(0, 2)) == 0])
     elif len(live) > 1:
       i = live.pop(draw(st.integers(0, len(live) - 1)))
       dead.append(i)
-      ops.append(['remove', i])
+      ops.append(['remove', i, draw(st.integers(0, 2)) == 0])
   return {'nodes': nodes, 'ops': ops, 'hash': draw(st.sampled_from(['carbon_ch', 'fnv1a_ch'])),
           'keys': 'all' if exhaustive else 'boundary',
           'names': draw(st.lists(gen.metric_names(max_tokens=5), max_size=40))}
@@ -168,6 +168,17 @@ def snapshot(ctx, case, router, ref, label):
                  label, case['hash'], key, p, got, want), case, 'compatibility')
       return None
     out[key] = got
+    # the way the relay asks: through the router (REPLICATION_FACTOR 1 here), not the ring object
+    try:
+      routed = [tuple(d) for d in router.getDestinations(key)]
+    except Exception as e:  # noqa
+      ctx.fail('C06:getDestinations-raised:%s' % type(e).__name__, '%s: getDestinations(%r) raised %r' % (label, key, e), case)
+      return None
+    if routed != [dest(n) for n in want[:1]]:
+      ctx.fail('C06:differs-from-published-algorithm',
+               '%s, hash %s: the router sends key %r (ring position %d) to %r, the published ring algorithm to %r' % (
+                 label, case['hash'], key, p, routed, [dest(n) for n in want[:1]]), case, 'compatibility')
+      return None
   for name in case['names']:
     try:
       got = [tuple(n) for n in router.ring.get_nodes(name)]
@@ -206,7 +217,10 @@ def execute(ctx, case):
   nkeys = len(snap)
   readd = False
   removed = set()
-  for k, (op, i) in enumerate(case['ops']):
+  pending_quiet = []
+  for k, opspec in enumerate(case['ops']):
+    op, i = opspec[0], opspec[1]
+    quiet = len(opspec) > 2 and opspec[2] and k + 1 < len(case['ops'])     # no look-up between this change and the next
     node = nodes[i]
     label = 'after ops %r' % (case['ops'][:k + 1],)
     try:
@@ -226,10 +240,19 @@ def execute(ctx, case):
       live.append(node)
       if node in removed:
         readd = True
+    if quiet:
+      pending_quiet.append((op, node))
+      continue
     new = snapshot(ctx, case, router, ref, label)
     if new is None:
       return
     nkeys += len(new)
+    if pending_quiet:
+      # several changes since the last look-up: only compatibility was judged (above); no single-operation
+      # disruption statement applies
+      pending_quiet = []
+      snap = new
+      continue
     # sub-check 1: minimal disruption on the keys present in both snapshots
     for key, after in new.items():
       before = snap.get(key)
